@@ -335,7 +335,7 @@ pub fn align(ctx: &Ctx) {
     let h = dev.handle();
     let r = run_program(dev, &p, &ExecOpts::default());
     if r.err.is_some() || r.panic.is_some() {
-        ctx.machinery_error(format!("writer program failed: {:?}", r.err));
+        ctx.violation(format!("{P}/precondition/writer-program-failed"), format!("the writer program that produces the original failed: {:?}", r.err));
         return;
     }
     let bytes = h.snapshot();
@@ -380,7 +380,7 @@ pub fn bulk(ctx: &Ctx) {
         run_program(Dev::empty(), &p, &ExecOpts::default()).caps.first().copied().unwrap_or(0)
     };
     if cap == 0 {
-        ctx.machinery_error("cannot probe the packet capacity".to_string());
+        ctx.violation(format!("{P}/precondition/capacity-probe-failed"), "add_pointcloud failed for a valid bit-packed prototype (packet capacity cannot be probed)".to_string());
         return;
     }
     let n = 5 * cap + 3;
